@@ -439,9 +439,21 @@ def _key(ck, p, byk):
                 for a in t["args"]:
                     fields |= set(place_field_names(a)) & {"dictionary", "dialect", "word_cache"}
             only_inputs = leaves <= {("arg", 1), ("arg", 2)}
-            ok = kg and kp and only_inputs
-            detail += "; key = the word on both sides=%s/%s; the cached value derives only from (self, word) %s; self fields read: %s" % (kg, kp, only_inputs, sorted(fields))
+            # the key must determine the word the search is run on: it may differ from it only by
+            # representation-changing conversions, never by a lossy transform (to_lower, trim, ...)
+            lossy = []
+            for which, op in (("get", gets[0][1]["args"][1]), ("put", puts[0][1]["args"][1])):
+                for o in arg_roots(g, gpv, op):
+                    if o[0] == "call" and last(norm(o[3] or o[2] or "")) not in INJECTIVE:
+                        lossy.append("%s key goes through %s" % (which, last(norm(o[3] or o[2] or ""))))
+            searches = [(bi, t) for bi, t in g.calls() if inst_of(t).endswith("spell::suggest_correct_spelling")]
+            search_on_word = bool(searches) and all(("arg", 2) in flatten(gpv.trace_operand(t["args"][0])) for _, t in searches)
+            ok = kg and kp and only_inputs and not lossy and search_on_word
+            detail += "; key = the word on both sides=%s/%s%s; the search runs on that same word=%s; the cached value derives only from (self, word) %s; self fields read: %s" % (kg, kp, "" if not lossy else " but " + "; ".join(sorted(set(lossy))), search_on_word, only_inputs, sorted(fields))
         ck.decide(rule, "word_cache", ok, g.span, detail)
+
+
+INJECTIVE = {"into", "from", "clone", "to_owned", "to_vec", "to_smallvec", "as_ref", "deref", "borrow", "iter", "copied", "cloned", "collect", "into_iter", "to_string", "as_slice", "from_slice", "from_iter", "new", "as_mut", "borrow_mut"}
 
 
 class _Sub:
